@@ -130,10 +130,10 @@ class C10Mixin(object):
             a.neutron = rec
             return "ok"
         if target in ("neutron_field", "neutron_field_dataless"):
-            own = "neutron" in a.__dict__
-            if own != (target == "neutron_field"):
-                return "skip"      # the record served is (not) the class-level placeholder
             rec = a.neutron
+            has_data = any(getattr(rec, k, None) is not None for k in ("b_c", "coherent", "total", "absorption"))
+            if has_data != (target == "neutron_field"):
+                return "skip"      # the record served is (not) a missing-data placeholder
             rec.b_c = v
             rec.total = v
             return "ok"
@@ -230,7 +230,7 @@ class C10Mixin(object):
                 atoms += list(el)
             for a in atoms:
                 for n in names:
-                    d = a.__dict__
+                    d = getattr(a, "__dict__", {})
                     if group == "xray":
                         try:
                             visit(a.xray)
